@@ -247,6 +247,19 @@ def run_c06(chk):
     # need more than the 1 GB a goroutine stack may grow to, which is fatal for the process (not a recoverable panic)
     rcases += [{"mode": "deep", "depth": 400000, "shape": s} for s in ("array", "object-rec", "oneof-rec", "map-rec", "any", "query")]
     rcases += [{"mode": "huge", "digits": d} for d in (30, 400, 5000, 200000)]
+    # every message type of the ProtoShapes descriptor sets as a decoding target (recursive types in every form, flatten
+    # cycles the target is or is not part of, name clashes, every annotation): the call returns
+    scases = []
+    for nm, cfg in (("focus_opt", "ProtoShapes_focus_opt.cfg"), ("focus_rec3", "ProtoShapes_focus_rec3.cfg"), ("graph2c", "ProtoShapes_graph2c.cfg")):
+        rs_ = chk.tlc("ProtoShapesMC.tla", cfg, "shapes_" + nm, workers=W, timeout=1200)
+        scases += rs_.cases
+        rs_.cases = []
+    if quick and len(scases) > 6000:
+        random.Random(chk.seed).shuffle(scases)
+        scases = scases[:6000]
+    ress = chk.replay("shapes-c06", scases, "shapes", workers=W, timeout="30s")
+    chk.absorb("shapes-c06", scases, ress, crash_sig=lambda c, e, sig: sig + "|target-types")
+    chk.extra_cov["target_type_sets"] = len(scases)
     resr = chk.replay("wire-rand", rcases, "rand", workers=W, timeout="120s")
     chk.absorb("wire-rand", rcases, resr, crash_sig=rand_sig)
     chk.extra_cov["random_inputs"] = sum(((e.get("out") or {}).get("obs") or {}).get("inputs", 0) for e in resr if isinstance((e.get("out") or {}).get("obs"), dict))
